@@ -168,6 +168,14 @@ AWKWARD_COORDS = [2.5e-10, 1.5e+20, -1.25e+100, 1e-10, 1e300, 1.5e+21, 1e22, 123
 
 def point_objects():
     out = []
+    # three and four coordinates whose values do not add up exactly, in every order
+    for vals in ((0.1, 0.2, 0.3), (1e16, 1.0, -1e16), (0.1, 0.7, 1e-9)):
+        for perm in itertools.permutations(list(zip(("a", "b", "c"), vals))):
+            d = dict(perm)
+            out.append((d, Point(**d)))
+    for perm in list(itertools.permutations(list(zip(("a", "b", "c", "d"), (0.1, 0.2, 0.3, 0.4)))))[::3]:
+        d = dict(perm)
+        out.append((d, Point(**d)))
     for v in AWKWARD_COORDS:
         out.append(({"x": v}, Point(x=v)))
         out.append(({"y": 1, "x": v}, Point(y=1, x=v)))
@@ -218,6 +226,13 @@ def object_set(tier):
             uniq.append(t)
     for t in uniq:
         objs.append((("E", M.key(t)), A.build(t), M.show(t)))
+    # the same terms built as DAGs: equal sub-terms are one shared object (w - w, w / w, w ** w, f(u) + f(u) ...)
+    for t in F.twice_terms(tier)[:: (1 if tier == "thorough" else 2)]:
+        if M.size(t) <= 9:
+            objs.append((("E", M.key(t)), A.build(t, True), f"{M.show(t)} [shared sub-objects]"))
+            objs.append((("E", M.key(t)), A.build(t, False), M.show(t)))
+            if M.variables(t):
+                objs.append((("Partial", M.key(t), "x"), Partial(A.build(t, True), "x"), f"Partial({M.show(t)} [shared], x)"))
     # equal variable names that are different string objects (built at run time, not interned)
     for nm in ("x1", "theta", "rate_2", "é1", "xy"):
         for mk in (lambda n: n, F.fresh_str, lambda n: "".join(list(n))):
@@ -257,7 +272,8 @@ def object_set(tier):
             objs.append((("Partial", M.key(t), "x"), Partial(e, "x"), f"Partial({M.show(t)} [{label}], x)"))
     pts = point_objects()
     if tier != "thorough":
-        pts = pts[:2 * len(AWKWARD_COORDS)] + pts[2 * len(AWKWARD_COORDS)::2]
+        head = 26 + 2 * len(AWKWARD_COORDS)
+        pts = pts[:head] + pts[head::2]
     for d, p in pts:
         objs.append((point_key(d), p, repr(d)))
     # derivative objects over a subset
@@ -385,65 +401,68 @@ for _name in smx.__all__:
 
 def c13_terms(chunk):
     st = Stats()
-    for t in chunk:
-        e = A.build(t)
-        r = repr(e)
-        st.inc("states")
-        st.inc("transitions", 2)
-        if str(e) != r:
-            st.violation({"term": M.to_json(t), "why": f"str and repr differ: {str(e)} / {r}"})
-            continue
-        try:
-            back = eval(r, dict(NAMESPACE))  # noqa: S307 - the property under test
-        except Exception as ex:  # noqa: BLE001
-            st.violation({"term": M.to_json(t), "why": f"printed form {r} does not evaluate: {type(ex).__name__}: {ex}"})
-            continue
-        try:
-            bt = A.reify(back)
-        except A.ReifyError as ex:
-            st.violation({"term": M.to_json(t), "why": f"printed form {r} evaluates to a non-expression: {ex}"})
-            continue
-        if M.key(bt) != M.key(t):
-            st.violation({"term": M.to_json(t), "why": f"printed form {r} builds {M.show(bt)}, not {M.show(t)}"})
-        elif not (back == e):
-            st.violation({"term": M.to_json(t), "why": f"eval(repr(e)) != e for {r}"})
-        elif r != M.show(A.reify(e)):
-            st.violation({"term": M.to_json(t), "why": f"printed form {r} is not the constructor call {M.show(A.reify(e))}"})
-        # the same must hold for expressions the library hands back after the original has been printed and used:
-        # symbolic derivatives are rebuilt from (copies of) the nodes of the printed original
-        if M.variables(t) and 2 <= M.size(t) <= 6 and (st.c.get("states", 0) % 3 == 0 or M.size(t) <= 3):
-            v = sorted(M.variables(t))[0]
-            for label, thunk in (("Partial(e, v).as_expression()", lambda: Partial(e, v).as_expression()),
-                                 ("Differential(e, compute_early=True).component(v).as_expression()",
-                                  lambda: Differential(e, compute_early=True).component(v).as_expression())):
-                o = A.construct(thunk)
-                st.inc("transitions")
-                if o[0] != "ok":
-                    continue
-                d = o[1]
-                rd = repr(d)
-                try:
-                    want = M.show(A.reify(d))
-                except A.ReifyError:
-                    continue
-                st.inc("derived_forms_checked")
-                if rd != want or str(d) != want:
-                    st.violation({"term": M.to_json(t), "why": f"after printing the original, {label} prints as {rd[:200]} "
-                                                                f"but is the expression {want[:200]}"})
-                    break
-                try:
-                    if not (eval(rd, dict(NAMESPACE)) == d):  # noqa: S307
-                        st.violation({"term": M.to_json(t), "why": f"eval(repr(...)) != the object for {label}: {rd[:200]}"})
+    for t0 in chunk:
+        for share in ((False, True) if (t0[0] in M.BINARY or t0[0] in M.NARY) and M.size(t0) <= 9 and len(set(map(A._spelling_key, M.children(t0)))) < len(M.children(t0)) else (False,)):
+            t = t0
+            e = A.build(t, share)
+            r = repr(e)
+            st.inc("states")
+            st.inc("transitions", 2)
+            if str(e) != r:
+                st.violation({"term": M.to_json(t), "why": f"str and repr differ: {str(e)} / {r}"})
+                continue
+            try:
+                back = eval(r, dict(NAMESPACE))  # noqa: S307 - the property under test
+            except Exception as ex:  # noqa: BLE001
+                st.violation({"term": M.to_json(t), "why": f"printed form {r} does not evaluate: {type(ex).__name__}: {ex}"})
+                continue
+            try:
+                bt = A.reify(back)
+            except A.ReifyError as ex:
+                st.violation({"term": M.to_json(t), "why": f"printed form {r} evaluates to a non-expression: {ex}"})
+                continue
+            if M.key(bt) != M.key(t):
+                st.violation({"term": M.to_json(t), "why": f"printed form {r} builds {M.show(bt)}, not {M.show(t)}"})
+            elif not (back == e) or not (e == back) or (back != e) or (e != back):
+                st.violation({"term": M.to_json(t), "why": f"eval(repr(e)) and e do not compare equal (in both directions) for {r}"})
+            elif r != M.show(A.reify(e)):
+                st.violation({"term": M.to_json(t), "why": f"printed form {r} is not the constructor call {M.show(A.reify(e))}"})
+            # the same must hold for expressions the library hands back after the original has been printed and used:
+            # symbolic derivatives are rebuilt from (copies of) the nodes of the printed original
+            if M.variables(t) and 2 <= M.size(t) <= 6 and (st.c.get("states", 0) % 3 == 0 or M.size(t) <= 3):
+                v = sorted(M.variables(t))[0]
+                for label, thunk in (("Partial(e, v).as_expression()", lambda: Partial(e, v).as_expression()),
+                                     ("Differential(e, compute_early=True).component(v).as_expression()",
+                                      lambda: Differential(e, compute_early=True).component(v).as_expression())):
+                    o = A.construct(thunk)
+                    st.inc("transitions")
+                    if o[0] != "ok":
+                        continue
+                    d = o[1]
+                    rd = repr(d)
+                    try:
+                        want = M.show(A.reify(d))
+                    except A.ReifyError:
+                        continue
+                    st.inc("derived_forms_checked")
+                    if rd != want or str(d) != want:
+                        st.violation({"term": M.to_json(t), "why": f"after printing the original, {label} prints as {rd[:200]} "
+                                                                    f"but is the expression {want[:200]}"})
                         break
-                except Exception as ex:  # noqa: BLE001
-                    if type(ex).__name__ not in ("OverflowError", "RecursionError"):
-                        st.violation({"term": M.to_json(t), "why": f"printed form of {label} does not evaluate: {type(ex).__name__}"})
-                        break
-        st.sample_repr = None
-        st.reprs = getattr(st, "reprs", {})
-        st.reprs.setdefault(r, set()).add(M.key(t))
-        if M.size(t) >= 2:
-            st.inc("nontrivial")
+                    try:
+                        bk = eval(rd, dict(NAMESPACE))  # noqa: S307
+                        if not (bk == d) or not (d == bk):
+                            st.violation({"term": M.to_json(t), "why": f"eval(repr(...)) != the object for {label}: {rd[:200]}"})
+                            break
+                    except Exception as ex:  # noqa: BLE001
+                        if type(ex).__name__ not in ("OverflowError", "RecursionError"):
+                            st.violation({"term": M.to_json(t), "why": f"printed form of {label} does not evaluate: {type(ex).__name__}"})
+                            break
+            st.sample_repr = None
+            st.reprs = getattr(st, "reprs", {})
+            st.reprs.setdefault(r, set()).add(M.key(t))
+            if M.size(t) >= 2:
+                st.inc("nontrivial")
     # injectivity inside the chunk is merged by the parent through outcomes
     out = Stats()
     out.merge(st)
@@ -459,6 +478,7 @@ def run_c13(tier, seed):
     src += [t for s in SEEDS for t in [s] + single_edits(s)]
     src += [sp for t in M.terms_up_to(M.SIGMA_FULL, 2) for sp in spellings(t)]
     src += const_terms()
+    src += F.names_terms(tier) + F.twice_terms(tier)
     src += [Add(NPow(x, 2), Mul(C(c), y)) for c in CONST_MENU] + [Pow(C(abs(c)), x) for c in CONST_MENU if c]
     for t in src:
         k = A._spelling_key(t)
